@@ -205,8 +205,61 @@ def nocache_history(ctx: Ctx, newexec: int, tag: str) -> None:
         pass
 
 
+def dry_history(ctx: Ctx, newexec: int, tag: str) -> None:
+    """subrun(sv(1)) for real, then a dry run of the same on that backend, then a real run again: as for direct
+    evaluation, the dry run completes with the value (everything is cached) -- if it stops early, the following
+    real run has to execute at least one task (C28 through a sub-scheduler)."""
+    import importlib.util
+    import sys
+
+    from redun.scheduler import subrun
+
+    d = ctx.scratch / f"c38dry_{tag}"
+    d.mkdir(parents=True, exist_ok=True)
+    modname = f"c38dry_{tag}_{os.getpid()}"
+    counter = d / "count.txt"
+    counter.write_text("")
+    path = d / f"{modname}.py"
+    path.write_text(f"from redun import task\n\nredun_namespace = 'c38dry{tag}'\n\n\n@task()\ndef sv(x):\n"
+                    f"    open({str(counter)!r}, 'a').write('x')\n    return x + 10\n")
+    spec = importlib.util.spec_from_file_location(modname, path)
+    mod = importlib.util.module_from_spec(spec)
+    sys.modules[modname] = mod
+    spec.loader.exec_module(mod)
+    db = simloop.clone_db(ctx.scratch, f"c38dry_{tag}.db")
+    cfg = {"backend": {"db_uri": f"sqlite:///{db}"}}
+    outs, counts = [], []
+    for dry in (False, True, False):
+        bk = simloop.open_backend(db)
+        try:
+            s, dr = simloop.make_scheduler(bk, limits={})
+            expr = subrun(mod.sv(1), executor="default", config=cfg, new_execution=bool(newexec), load_modules=[modname])
+            o = simloop.run_controlled(s, dr, expr, dryrun=dry, execution_id=str(uuid.uuid4()))
+            outs.append(o.get("value", o["outcome"]))
+            counts.append(len(counter.read_text()))
+        finally:
+            simloop.close_backend(bk)
+    ctx.count_eval()
+    ctx.count_impl_trace()
+    ctx.distinct(["dry-history", newexec])
+    executed_by_last_real_run = counts[2] - counts[1]
+    if outs[0] != 11 or outs[2] != 11 or counts[1] != counts[0] or \
+            (outs[1] != 11 and executed_by_last_real_run == 0):
+        ctx.violation(f"subrun(sv(1)): real run, dry run, real run on one backend gave {outs} with sv executed {counts} times "
+                      f"in total after each run: a dry run executes nothing, and if it stops early the next real run must "
+                      f"execute something (new_execution={bool(newexec)})",
+                      {"history": "run subrun(sv(1)); dry run; run", "newexec": newexec, "outs": [str(o) for o in outs],
+                       "counts": counts})
+    try:
+        os.unlink(db)
+    except OSError:
+        pass
+
+
 def run(ctx: Ctx) -> None:
     ctx.assume("the sub-scheduler shares the sqlite backend file of the calling scheduler")
+    for ne in (0, 1):
+        dry_history(ctx, ne, f"d{ne}")
     for ne in (0, 1):
         nocache_history(ctx, ne, f"n{ne}")
     for ne in (0, 1):
